@@ -132,6 +132,11 @@ func c13(c *Ctx) {
 		c.check(owner == "embedded/sql.(*Engine).NewTx", r, "store.NewTx:in:"+owner, c.pos(in.Pos()), "store transactions are opened by Engine.NewTx only", "a store transaction is opened in "+owner)
 	}
 
+	// ---- C13.4 committed DDL is visible to every later transaction: catalog cache coherence ---------------------------
+	c13CatalogCache(c, "C13.4/catalog-cache-coherence")
+	// ---- C13.5 a transaction sees its own latest write of every (mapped) key ------------------------------------------------
+	c05OwnWrites(c, "C13.5/own-writes")
+
 	// ---- C13.3 ROLLBACK TO SAVEPOINT must undo the writes ---------------------------------------------------------------
 	r = "C13.3/savepoint-effect"
 	if f := c.mustFn(r, sqlTxT+"RollbackToSavepoint"); f != nil {
@@ -158,5 +163,33 @@ func c13(c *Ctx) {
 	}
 	if t := c.namedType("embedded/sql", "savepointState"); t != nil {
 		_ = t
+	}
+}
+
+// c13CatalogCache: a committed DDL always bumps the catalog version and clears the cached catalog; a catalog is
+// published into the cache only if the version did not change since the publishing tx opened.
+func c13CatalogCache(c *Ctx, r string) {
+	if f := c.mustFn(r, "embedded/sql.(*Engine).invalidateCatalogCache"); f != nil {
+		bump := callTo("sync/atomic.(*Uint64).Add@cachedCatalogVersion")
+		c.ruleMustPass(r, f, nil, "cachedCatalogVersion.Add(1)", bump, nil, false)
+		c.ruleMustPass(r, f, nil, "cachedCatalog=nil", storeTo("Engine.cachedCatalog"), nil, false)
+		for _, st := range sites(f, storeTo("Engine.cachedCatalog")) {
+			c.check(desc(st.(*ssa.Store).Val) == "nil", r, fnName(f)+":clears-cache", c.pos(st.Pos()), "cache cleared", "invalidateCatalogCache stores "+desc(st.(*ssa.Store).Val))
+		}
+	}
+	if f := c.mustFn(r, "embedded/sql.(*Engine).tryPopulateCatalogCache"); f != nil {
+		sameVersion := whenCond(true, func(a string) bool { return strings.Contains(a, "cachedCatalogVersion") && strings.Contains(a, "param:openVersion") && strings.Contains(a, " == ") })
+		q := &pathQ{fn: f, fromEntry: true, to: storeTo("Engine.cachedCatalog"), barrier: sameVersion}
+		c.check(len(sites(f, storeTo("Engine.cachedCatalog"))) > 0 && q.bypass() == nil, r, fnName(f)+":publish-only-if-version-unchanged", c.pos(f.Pos()), "the cache is filled only on the version-equal edge", "a catalog can be published into the cache although a DDL was committed since the transaction opened")
+	}
+	if f := c.mustFn(r, sqlTxT+"Commit"); f != nil {
+		mut := whenCond(false, func(a string) bool { return hasFieldSuffix(a, "mutatedCatalog") })
+		// on the mutatedCatalog edge the cache is invalidated before Commit returns successfully
+		q := &pathQ{fn: f, from: sites(f, callTo(otxT+"AsyncCommit", otxT+"Commit")), to: successReturn, via: callTo("embedded/sql.(*Engine).invalidateCatalogCache"), barrier: mut}
+		c.check(q.bypass() == nil, r, fnName(f)+":ddl-commit-invalidates-cache", c.pos(f.Pos()), "a committed DDL passes invalidateCatalogCache", "a transaction that changed the catalog can commit without invalidating the cached catalog")
+		for _, in := range sites(f, callTo("embedded/sql.(*Engine).tryPopulateCatalogCache")) {
+			a := desc(callOf(in).Args[2])
+			c.check(hasFieldSuffix(a, "openCatalogVersion"), r, fnName(f)+":publishes-with-open-version", c.pos(in.Pos()), "publishes with the version observed when the tx opened", "tryPopulateCatalogCache is given "+a)
+		}
 	}
 }
